@@ -24,6 +24,27 @@ def _selftest_task(args):
     from vf.engine import install, engine as E
     import importlib
     ob = harness.Ob(**ob_dict)
+    # wall budget for one selftest task (pinned symbolic runs are normally seconds; on a changed tree z3's model evaluation
+    # over algebraic numbers was seen to run for an hour): z3 is asked to cancel, and the flag of a settled verdict is honoured
+    import threading
+    import z3 as _z3
+    t_start = time.time()
+    budget = float(os.environ.get('VF_SELFTEST_BUDGET_S', '420'))
+    flag = os.environ.get('VF_SETTLED_FLAG')
+
+    def _watchdog():
+        settled_at = None
+        while True:
+            time.sleep(5)
+            now = time.time()
+            if flag and settled_at is None and os.path.exists(flag):
+                settled_at = now
+            if now > t_start + budget or (settled_at is not None and now > settled_at + 60):
+                try:
+                    _z3.main_ctx().interrupt()
+                except Exception:
+                    pass
+    threading.Thread(target=_watchdog, daemon=True).start()
     lib = install.install()
     mod = importlib.import_module('vf.props.' + prop.lower())
     fn = mod.SCENARIOS[ob.scenario]
